@@ -589,9 +589,23 @@ def evaluate(ctx, cases, model_exe, facts, exes=None):
         c["main"], c["files"] = main, files
         runs.append({"id": c["id"], "sheet": main, "source": c["doc"], "files": files})
     res = xsltrun.run(runs, exe=exes.get("xslt"))
+    # a crash takes the rest of its chunk with it: run the lost cases again, one process each
+    lost = [r for r in runs if res[r["id"]][0] == "crash"]
+    if lost:
+        from concurrent.futures import ThreadPoolExecutor
+        with ThreadPoolExecutor(8) as ex:
+            for r, o in zip(lost[:200], ex.map(lambda r: xsltrun.run([r], exe=exes.get("xslt"))[r["id"]], lost[:200])):
+                res[r["id"]] = o
     res_nq = {}
     if exes.get("tmpl"):
-        res_nq = run_nonquiet([(r["id"], xsltrun.line_of(dict(r, opts="nonquiet"))) for r in runs], exes["tmpl"])
+        nql = [(r["id"], xsltrun.line_of(dict(r, opts="nonquiet"))) for r in runs]
+        res_nq = run_nonquiet(nql, exes["tmpl"])
+        lost = [x for x in nql if res_nq[x[0]][0] == "crash"]
+        if lost:
+            from concurrent.futures import ThreadPoolExecutor
+            with ThreadPoolExecutor(8) as ex:
+                for x, o in zip(lost[:200], ex.map(lambda x: run_nonquiet([x], exes["tmpl"])[x[0]], lost[:200])):
+                    res_nq[x[0]] = o
     # 3. the model
     mres = {}
     if model_exe:
@@ -712,9 +726,19 @@ K4_SHEET = {"items": [
     "imports": []}
 
 
+def big_sheet(n):
+    """more than 100 pattern entries competing for one node with equal priority: the conflict-reporting
+    path switches from its 100-element stack array to a vector (Stylesheet::findTemplate)"""
+    items = [{"id": k, "alts": [alt("a[%d > 0]" % k, "name", False, "a", multi=True, pred="bool")], "mode": None,
+              "prio": 1000 if k % 3 else 2000, "ai": False} for k in range(1, n + 1)]
+    return {"items": items, "imports": []}
+
+
 def corpus_cases(ctx):
     import copy
-    return [make_case(ctx, "corpusK1", k1=True, sheet=copy.deepcopy(K1_SHEET), doc="<d><a/><a><b/></a></d>"),
+    return [make_case(ctx, "corpusBig", sheet=big_sheet(104), doc="<d><a/><b/></d>"),
+            make_case(ctx, "corpusBig99", sheet=big_sheet(99), doc="<d><a/><b/></d>"),
+            make_case(ctx, "corpusK1", k1=True, sheet=copy.deepcopy(K1_SHEET), doc="<d><a/><a><b/></a></d>"),
             make_case(ctx, "corpusK2", k2=True, sheet=copy.deepcopy(K2_SHEET), doc="<d><a>t1</a><!--c--><?pi1 q?></d>"),
             make_case(ctx, "corpusK4", k4=True, sheet=copy.deepcopy(K4_SHEET), doc='<d><a x="1"/></d>'),
             make_case(ctx, "corpusK3", k3=True, sheet=copy.deepcopy(K3_SHEET), doc='<d><p:a xmlns:p="urn:u1"/></d>')]
